@@ -39,8 +39,19 @@ REC = Rec()
 def fl(a):
     return [float(t) for t in np.asarray(a, dtype=float).ravel()]
 
+def shifted_exponential(xx, params):
+    """a density whose support [x0, inf) starts inside (or at a point of) the cached grid: exp(-(x-x0)/scale)/scale for x >= x0, else 0"""
+    x0, scale = params[0], params[1]
+    xx = np.asarray(xx, dtype=float)
+    return np.where(xx >= x0, np.exp(-np.maximum(xx - x0, 0.0) / scale) / scale, 0.0)
+
+CUSTOM_PDFS = {'shifted_exponential': shifted_exponential}
+
+def real_pdf(name):
+    return CUSTOM_PDFS[name] if name in CUSTOM_PDFS else getattr(PDFs, name)
+
 def wrap_pdf(name):
-    real = getattr(PDFs, name)
+    real = real_pdf(name)
     if name.startswith('biv_'):
         def f(xx, yy, params):
             out = real(xx, yy, params)
@@ -185,6 +196,78 @@ def result_rec(res):
     out['is_spectrum'] = isinstance(res, dadi.Spectrum)
     return out
 
+INF = float('inf')
+
+def ref_tails1(pdfq, s1, s2):
+    """independent reference for the 1-D tails: for every (1-D pdf, parameter vector) the operation evaluated or integrated, the pdf on the grid
+    of EACH cache of the scenario and scipy's quad (the untouched one) over that grid's documented regions (0, -neg[-1]) and (-neg[0], inf)"""
+    keys = []
+    for r in pdfq[0]:
+        if 'yy' not in r and (r['pdf'], r['params']) not in keys:
+            keys.append((r['pdf'], r['params']))
+    for r in pdfq[1]:
+        if r['kind'] == 'quad' and not r['func'].startswith('biv_') and r['func'] != '<lambda>' and 'params' in r['args']:
+            if (r['func'], r['args']['params']) not in keys:
+                keys.append((r['func'], r['args']['params']))
+    out = []
+    for name, params in keys:
+        try:
+            f = real_pdf(name)
+        except AttributeError:
+            continue
+        ent = {'func': name, 'params': params}
+        for tag, c in (('s1', s1), ('s2', s2)):
+            if c is None:
+                continue
+            neg = np.asarray(c.neg_gammas, dtype=float)
+            hi, lo = float(-neg[-1]), float(-neg[0])
+            try:
+                ent[tag] = {'neu_lim': [0.0, hi], 'neu': float(_quad(f, 0, hi, args=list(params))[0]),
+                            'del_lim': [lo, INF], 'del': float(_quad(f, lo, np.inf, args=list(params))[0]),
+                            'w': fl(f(-neg, list(params)))}
+            except Exception as e:
+                ent[tag] = {'error': type(e).__name__ + ': ' + str(e)[:200]}
+        out.append(ent)
+    return out
+
+def ref_tails2(quads, s2):
+    """when a 2-D edge / corner integral of the operation was NOT taken over a documented region of s2's grid: the integrals over the
+    documented regions, per bivariate pdf and parameter vector (all four edge families and the three corners), computed independently"""
+    if s2 is None:
+        return None
+    neg = np.asarray(s2.neg_gammas, dtype=float)
+    mx, mn = float(-neg[-1]), float(-neg[0])
+    grid = set(float(g) for g in -neg)
+    bad = False
+    keys = []
+    for r in quads:
+        if r['kind'] == 'quad' and (r['func'].startswith('biv_') or r['func'] == '<lambda>'):
+            if (r['a'], r['b']) not in ((mn, INF), (0.0, mx)) or ('gamma' in r['args'] and r['args']['gamma'] not in grid):
+                bad = True
+            if r['func'].startswith('biv_') and (r['func'], r['args'].get('params')) not in keys:
+                keys.append((r['func'], r['args'].get('params')))
+        elif r['kind'] == 'dblquad':
+            if (r['a'], r['b'], r['g'], r['h']) not in ((0.0, mx, 0.0, mx), (0.0, mx, mn, INF), (mn, INF, 0.0, mx)):
+                bad = True
+    if not bad:
+        return None
+    out = []
+    kw = dict(epsabs=1e-4, epsrel=1e-3)
+    for name, params in keys:
+        f = getattr(PDFs, name); p = np.array(params)
+        blk = {'func': name, 'params': params, 'q1low': [], 'q1high': [], 'q2low': [], 'q2high': []}
+        for g in -neg:
+            blk['q1low'].append(float(_quad(f, mn, np.inf, args=(g, p), **kw)[0]))
+            blk['q1high'].append(float(_quad(f, 0, mx, args=(g, p), **kw)[0]))
+            m2 = lambda g2: f(g, g2, p)
+            blk['q2low'].append(float(_quad(m2, mn, np.inf, **kw)[0]))
+            blk['q2high'].append(float(_quad(m2, 0, mx, **kw)[0]))
+        blk['dbl'] = [float(_dblquad(f, 0, mx, lambda _: 0, lambda _: mx, args=[p], **kw)[0]),
+                      float(_dblquad(f, 0, mx, lambda _: mn, lambda _: np.inf, args=[p], **kw)[0]),
+                      float(_dblquad(f, mn, np.inf, lambda _: 0, lambda _: mx, args=[p], **kw)[0])]
+        out.append(blk)
+    return out
+
 def run_op(op, s1, s2, demog1):
     kind = op['op']
     theta = op.get('theta', 1.0)
@@ -272,6 +355,13 @@ def run_scenario(sc):
         except Exception as e:
             rec['error'] = type(e).__name__ + ': ' + str(e)[:300]
         rec['pdf'], rec['quad'] = REC.take()
+        try:
+            rec['ref1'] = ref_tails1((rec['pdf'], rec['quad']), s1, s2)
+            r2 = ref_tails2(rec['quad'], s2)
+            if r2 is not None:
+                rec['ref_tl2'] = r2
+        except Exception as e:
+            rec['ref_error'] = type(e).__name__ + ': ' + str(e)[:300]
         if op['op'] in ('pp1',) and s1 is not None:
             rec['after1'] = cache1_state(s1)
         ops.append(rec)
@@ -380,6 +470,22 @@ def run_mp(req):
         except BaseException as e:
             rec['error'] = type(e).__name__ + ': ' + str(e)[:200]
         out['merges'].append(rec)
+    # observation: two split jobs that together cover every index but were built on different gamma grids
+    if req.get('merges'):
+        try:
+            gb = tuple(base['gamma_bounds']); gb2 = (gb[0] * 4.0, gb[1] / 2.0)
+            ca = Cache2D([], ns2, f2, pts, cpus=1, split_jobs=2, this_job_id=0, **ckw2)
+            kw = dict(ckw2); kw['gamma_bounds'] = gb2
+            cb = Cache2D([], ns2, f2, pts, cpus=1, split_jobs=2, this_job_id=1, **kw)
+            try:
+                m = Cache2D.merge([ca, cb])
+                same = bool(np.array_equal(np.asarray(m.spectra), np.asarray(ref2.spectra)))
+                out['cross_grid_merge'] = {'bounds': [list(gb), list(gb2)], 'outcome': 'absorbed',
+                                           'detail': 'merged without an error; result %s the single-process cache on the first grid' % ('equals' if same else 'differs from')}
+            except ValueError as e:
+                out['cross_grid_merge'] = {'bounds': [list(gb), list(gb2)], 'outcome': 'reported', 'detail': 'ValueError: ' + str(e)[:120]}
+        except BaseException as e:
+            out['cross_grid_merge'] = {'bounds': [], 'outcome': 'probe failed', 'detail': type(e).__name__ + ': ' + str(e)[:120]}
     # raising workers
     for dim, k, idx in req.get('raising', []):
         rec = {'dim': dim, 'cpus': k, 'index': idx}
